@@ -483,3 +483,103 @@ func (d *Driver) Durations(maxMs int) {
 		l.done()
 	})
 }
+
+// Times runs a sweep of instants (seconds around the epoch and a recent one x
+// nanosecond parts around the micro- and millisecond marks, in UTC and in a
+// fixed zone) as entry time, as a field and as array elements under every
+// built-in time encoder.
+func (d *Driver) Times() {
+	var vals []time.Time
+	zone := time.FixedZone("ZZ", -(3*3600 + 1800))
+	for _, sec := range []int64{-86400 * 365 * 40, -2, -1, 0, 1, 1700000000, 4102444800} {
+		for _, ns := range []int64{0, 1, 999, 1000, 1001, 1500, 499999, 500000, 999999, 1000000, 1000001, 123456789, 999999000, 999999999} {
+			vals = append(vals, time.Unix(sec, ns).UTC(), time.Unix(sec, ns).In(zone))
+		}
+	}
+	encs := []string{"epoch", "epochmillis", "epochnanos", "iso8601", "rfc3339", "rfc3339nano", "plainlayout"}
+	par.For(len(encs), func(ei int) {
+		l := d.local("times")
+		c := DefaultCfg()
+		c.TimeEnc = encs[ei]
+		enc := zapcore.NewJSONEncoder(c.EncoderConfig())
+		for i, v := range vals {
+			v := v
+			e := DefaultEnt()
+			e.Time = v
+			w := vals[(i+7)%len(vals)]
+			p := Placement{Call: []*Spec{
+				leaf("zap.Time", func(k string) zapcore.Field { return zap.Time(k, v) }, func(k string, r Ref) []jsonx.Member { return one(k, TimeNode(v, r)) }),
+				leaf("zap.Times", func(k string) zapcore.Field { return zap.Times(k, []time.Time{v, w}) }, func(k string, r Ref) []jsonx.Member {
+					return one(k, jsonx.A(TimeNode(v, r), TimeNode(w, r)))
+				}),
+			}}
+			l.one(c, enc, e, p, i%2 == 0, func(kind, msg string) string { return fmt.Sprintf("times:%s:%s:%s", kind, encs[ei], msgClass(msg)) }, func() string {
+				return fmt.Sprintf("time %s (unix %d.%09d) with the %s time encoder", v.Format(time.RFC3339Nano), v.Unix(), v.Nanosecond(), encs[ei])
+			})
+		}
+		l.done()
+	})
+}
+
+// Numbers runs a sweep of floats (small integers, powers of ten across the
+// range where the shortest formatting switches to exponents, values with long
+// fractions, subnormals, the float32 counterparts) and of integers near the
+// width boundaries as fields and as array elements.
+func (d *Driver) Numbers() {
+	var fs []float64
+	for i := -20; i <= 20; i++ {
+		fs = append(fs, float64(i), float64(i)+0.5, float64(i)/3)
+	}
+	for e := -30; e <= 30; e++ {
+		p := math.Pow(10, float64(e))
+		fs = append(fs, p, -p, 3*p, p*(1+1e-15))
+	}
+	fs = append(fs, 0.1+0.2, 1<<24, 1<<24+1, 1<<53, 1<<53+2, math.MaxFloat64, math.SmallestNonzeroFloat64, math.MaxFloat32, math.SmallestNonzeroFloat32, math.Copysign(0, -1))
+	l := d.local("numbers")
+	c := DefaultCfg()
+	enc := zapcore.NewJSONEncoder(c.EncoderConfig())
+	e := DefaultEnt()
+	for i := 0; i+1 < len(fs); i += 2 {
+		a, b := fs[i], fs[i+1]
+		a32, b32 := float32(a), float32(b)
+		p := Placement{Call: []*Spec{
+			leaf("float64", func(k string) zapcore.Field { return zap.Float64(k, a) }, func(k string, r Ref) []jsonx.Member { return one(k, F64(a)) }),
+			leaf("float64s", func(k string) zapcore.Field { return zap.Float64s(k, []float64{a, b}) }, func(k string, r Ref) []jsonx.Member { return one(k, jsonx.A(F64(a), F64(b))) }),
+			leaf("float32", func(k string) zapcore.Field { return zap.Float32(k, b32) }, func(k string, r Ref) []jsonx.Member { return one(k, F32(b32)) }),
+			leaf("float32s", func(k string) zapcore.Field { return zap.Float32s(k, []float32{a32, b32}) }, func(k string, r Ref) []jsonx.Member { return one(k, jsonx.A(F32(a32), F32(b32))) }),
+		}}
+		l.one(c, enc, e, p, i%4 == 0, func(kind, msg string) string { return fmt.Sprintf("numbers:%s:float:%s", kind, msgClass(msg)) }, func() string {
+			return fmt.Sprintf("floats %v and %v (as float64, float32, and in arrays)", a, b)
+		})
+	}
+	// integers: every power of two +-1 in every width, through the typed constructors and their slices
+	for sh := 0; sh < 64; sh++ {
+		for _, dlt := range []int64{-1, 0, 1} {
+			u := uint64(1)<<uint(sh) + uint64(dlt)
+			i := int64(u)
+			p := Placement{Call: []*Spec{
+				leaf("int64", func(k string) zapcore.Field { return zap.Int64(k, i) }, func(k string, r Ref) []jsonx.Member { return one(k, I64(i)) }),
+				leaf("uint64", func(k string) zapcore.Field { return zap.Uint64(k, u) }, func(k string, r Ref) []jsonx.Member { return one(k, U64(u)) }),
+				leaf("int32", func(k string) zapcore.Field { return zap.Int32(k, int32(i)) }, func(k string, r Ref) []jsonx.Member { return one(k, I64(int64(int32(i)))) }),
+				leaf("uint32", func(k string) zapcore.Field { return zap.Uint32(k, uint32(u)) }, func(k string, r Ref) []jsonx.Member { return one(k, U64(uint64(uint32(u)))) }),
+				leaf("int16", func(k string) zapcore.Field { return zap.Int16(k, int16(i)) }, func(k string, r Ref) []jsonx.Member { return one(k, I64(int64(int16(i)))) }),
+				leaf("uint16", func(k string) zapcore.Field { return zap.Uint16(k, uint16(u)) }, func(k string, r Ref) []jsonx.Member { return one(k, U64(uint64(uint16(u)))) }),
+				leaf("int8", func(k string) zapcore.Field { return zap.Int8(k, int8(i)) }, func(k string, r Ref) []jsonx.Member { return one(k, I64(int64(int8(i)))) }),
+				leaf("uint8", func(k string) zapcore.Field { return zap.Uint8(k, uint8(u)) }, func(k string, r Ref) []jsonx.Member { return one(k, U64(uint64(uint8(u)))) }),
+				leaf("uintptr", func(k string) zapcore.Field { return zap.Uintptr(k, uintptr(u)) }, func(k string, r Ref) []jsonx.Member { return one(k, U64(u)) }),
+				leaf("int64s", func(k string) zapcore.Field { return zap.Int64s(k, []int64{i, -i}) }, func(k string, r Ref) []jsonx.Member { return one(k, jsonx.A(I64(i), I64(-i))) }),
+				leaf("uint32s", func(k string) zapcore.Field { return zap.Uint32s(k, []uint32{uint32(u), uint32(u >> 1)}) }, func(k string, r Ref) []jsonx.Member {
+					return one(k, jsonx.A(U64(uint64(uint32(u))), U64(uint64(uint32(u>>1)))))
+				}),
+				leaf("int8s", func(k string) zapcore.Field { return zap.Int8s(k, []int8{int8(i), int8(i >> 3)}) }, func(k string, r Ref) []jsonx.Member {
+					return one(k, jsonx.A(I64(int64(int8(i))), I64(int64(int8(i>>3)))))
+				}),
+				leaf("uint16s", func(k string) zapcore.Field { return zap.Uint16s(k, []uint16{uint16(u)}) }, func(k string, r Ref) []jsonx.Member { return one(k, jsonx.A(U64(uint64(uint16(u))))) }),
+			}}
+			l.one(c, enc, e, p, sh%2 == 0, func(kind, msg string) string { return fmt.Sprintf("numbers:%s:int:%s", kind, msgClass(msg)) }, func() string {
+				return fmt.Sprintf("integers around 2^%d (%d / %d) in every width", sh, i, u)
+			})
+		}
+	}
+	l.done()
+}
